@@ -410,6 +410,18 @@ def run(ctx):
     try:
         fo = body_of(ctx, "R14.3", D + "::from_origin")
         root = thir.root(fo)
+        # the walk's pruning filter is built from the files found so far: it must be built after every origin-level probe, on every path
+        ctx.also("R14.3", "the walker (DirTourist::new, which compiles the pruning filter from the files found so far) is created after every origin-level discover_file")
+        late, n_new = [], 0
+        for p_ in pathx.Enum(interesting=lambda d: strip_generics(d).endswith(("discover::discover_file", "DirTourist::new"))).paths(root):
+            seq_ = [strip_generics(e[1]).split("::")[-1] for e in p_.ev if e[0] == "call"]
+            if "new" in seq_:
+                n_new += 1
+                if "discover_file" in seq_[seq_.index("new") + 1:]:
+                    late.append(seq_)
+        ctx.require(n_new > 0 and not late, "R14.3", "walker-after-origin-probes", "DirTourist::new comes after every origin-level discover_file on every path (%d paths)" % n_new, fo.loc(fo.line),
+                    detail=str(late[:1])[:200], fail="the directory walker is set up before some origin-level ignore files are looked up: those files (e.g. .git/info/exclude, "
+                                                     ".bzrignore, core.excludesFile) are returned but do not prune the walk, so ignore files inside directories they ignore are returned too")
         ms = [m for m in thir.find(root, "match") if m["src"] == "Normal" and m["sty"].endswith("discover::Visit")]
         if len(ms) != 1:
             ctx.violation("R14.3", "floor:visit-match", "from_origin no longer matches on Visit once", fo.loc(fo.line))
